@@ -19,7 +19,20 @@ optionally next to a sibling LasData built the same way (which must not be affec
 laspy.convert to any point format / version (extra dimensions with scales, offsets, descriptions, order, raw values and the VLR
 survive; the source is untouched; model op Convert), round trips through laspy.open(mode="w") in chunks, and re-reads of files whose
 extra-bytes VLR registers only the first k dimensions or is absent (model op Reread: the un-registered trailing bytes become ONE opaque
-"ExtraBytes" dimension of exactly that many bytes; the next add / remove / convert registers it)."""
+"ExtraBytes" dimension of exactly that many bytes; the next add / remove / convert registers it).
+Round 4: (a) values are assigned in the element type the dimension was DECLARED with (not the one the record happens to have), the
+record's own field types are part of every snapshot (they must be the declared ones), and every file a step writes is parsed with
+struct: record length, the extra-bytes VLR and, dimension by dimension, the bytes at its place in every point record against the
+values that were assigned; names come back — after a removal, after a round trip, in a LasData made after a sibling used them — with a
+type of the same layout (element count and width) and another kind, in one process.  (b) Other live objects: a step may create another
+object from the LasData through the public API (las[slice / step / mask / index list / index array / int / empty], a copy made of
+deepcopy(header) + points.copy(), LasData(las.header, ...), laspy.open(source).read() once or twice, laspy.open(mode="w",
+header=las.header)) and the history goes on with the new or with the old one; the LasData a round trip / conversion / re-read was made
+from and the LasData whose record was assigned (las.points = other.points) stay alive too.  Every one of them is observed after every
+later step: an add / remove on one must leave the others exactly as they were (format, record length, VLR, values), and at the end
+each can still be written and read back (a writer writes the points it was opened for, a reader reads its file again).  Model: a world
+= current LasData + the other live ones (WOp / WNew / WSelect / WCopy); the correspondence compares every live object with the world at
+the end of the history.  (c) Round trips also through LasData.write(path) + laspy.read(path) and through laspy.mmap(path)."""
 import io
 import struct
 
@@ -43,6 +56,15 @@ ASSUMPTIONS = [
     "'ExtraBytes' it introduces is not a registered dimension already (hypothesis op_okb of the theorems; generator-enforced)",
     "two LasData built from ONE PointFormat object the caller passes to both (laspy.create(point_format=fmt) twice with the same fmt) "
     "are not generated: every construction gets its own PointFormat",
+    "one HEADER object in two live API objects is not judged: LasData(las.header, ...) made by the caller, and the LasData that "
+    "LasReader.read() returns, which holds the reader's own header object by laspy's design (read() completes it with the EVLRs "
+    "afterwards): what one does to the header reaches the other; both constellations are generated, the LasData the history goes on "
+    "with is judged, the other one is only observed when it appears (were the header no longer shared, it would be judged like any "
+    "other live object)",
+    "values of another live object may follow an in-place assignment (las[name] = ..., whole-record assignment from a view) while both "
+    "share the memory of their points: las[a:b] is a numpy view; format, record length and VLRs may never follow",
+    "copy.copy / copy.deepcopy of a LasData are not generated (they raise RecursionError in the unchanged laspy: LasData.__getattr__ "
+    "recurses on an instance without _points); nor is las[np.int64(i)] (AttributeError in PackedPointRecord.__getitem__)",
     "scaled values are compared as the stored raw bytes and scales/offsets as binary64 bit patterns; float presentation is C11",
     "a record assigned as a whole (las.points = r) either has exactly the extra dimensions of the LasData (bit-identical, or -0.0 for 0.0 "
     "among the offsets) or differs from them in something PointFormat.__eq__ looks at; DimensionInfo.__eq__ compares kind and total bits "
@@ -152,9 +174,9 @@ def rand_type(rng):
     return ("s", rng.randrange(1, 31))
 
 
-def rand_dim(rng, used, reserved, t=None, scaled=None, name_len=None, desc_len=None):
+def rand_dim(rng, used, reserved, t=None, scaled=None, name_len=None, desc_len=None, name=None):
     t = t or rand_type(rng)
-    name = rand_text(rng, name_len or rand_len(rng), used, reserved)
+    name = name if name is not None else rand_text(rng, name_len or rand_len(rng), used, reserved)
     dl = rng.choice([0, 0, 1, 5, 31, 32, rng.randrange(33)]) if desc_len is None else desc_len
     desc = rand_text(rng, dl, loose=True) if dl else ""
     sc = None
@@ -163,6 +185,29 @@ def rand_dim(rng, used, reserved, t=None, scaled=None, name_len=None, desc_len=N
         sc = [[lasio.f64bits(rng.choice(SCALES) if rng.random() < 0.8 else rng.uniform(1e-6, 1e6)) for _ in range(n)],
               [lasio.f64bits(rng.choice(OFFSETS) if rng.random() < 0.8 else rng.uniform(-1e6, 1e6)) for _ in range(n)]]
     return {"name": hx(name.encode()), "type": list(t), "scale": sc, "desc": hx(desc.encode())}
+
+
+def twin_types(t):
+    """the element types with the same number of elements and the same element size as t but another kind (signed / unsigned /
+    floating point): what a layout described by (name, count, width) cannot tell from t"""
+    if t[0] == "o":
+        return []
+    i = t[1] - 1
+    n, b = i // 10, BASE[i % 10]
+    return [("s", BASE.index(b2) + 1 + 10 * n) for b2 in BASE if b2[1:] == b[1:] and b2 != b]
+
+
+def twin_type(rng, t):
+    """a type to re-use a name with: mostly one of equal layout and other kind, sometimes any other type (or the same again)"""
+    tw = twin_types(t)
+    if tw and rng.random() < 0.8:
+        return rng.choice(tw)
+    return rand_type(rng) if rng.random() < 0.7 else t
+
+
+def np_base(t):
+    """(little-endian numpy element type, elements per point) of a model type token"""
+    return (np.dtype("u1"), t[1]) if t[0] == "o" else (np.dtype("<" + BASE[(t[1] - 1) % 10]), (t[1] - 1) // 10 + 1)
 
 
 def rand_values(rng, t, scaled, npts):
@@ -377,7 +422,84 @@ def rand_vlrs(rng):
     return out
 
 
-def gen_history(rng, reserved, fmt=None, steps=None, npts=None, plan=None, build=None, init=None, sibling=None):
+SELECT_KINDS = ["slice", "slice", "step", "mask", "list", "array", "int", "empty"]
+FORK_HOWS = ["select", "select", "select", "copy", "share_header", "reader", "reader_twice", "writer"]
+ROUNDTRIP_VIAS = ["write", "write", "write", "writer", "writer", "path", "mmap"]
+
+
+def rand_index(rng, n, kind=None, bad=False):
+    """an index expression for las[...] on n points (JSON-able)"""
+    kind = kind or rng.choice(SELECT_KINDS)
+    if kind == "int" and n == 0:
+        kind = "slice"
+    if kind == "slice":
+        a_, b_ = sorted((rng.randrange(n + 1), rng.randrange(n + 1)))
+        a_ = rng.choice([a_, a_, None, a_ - n if n and a_ < n else a_])
+        b_ = rng.choice([b_, b_, None, n + 3])
+        return {"kind": "slice", "a": a_, "b": b_, "step": None}
+    if kind == "step":
+        return {"kind": "slice", "a": rng.choice([None, 0, 1]), "b": None, "step": rng.choice([2, 2, 3, -1, -2])}
+    if kind == "mask":
+        return {"kind": "mask", "bits": [rng.randrange(2) for _ in range(n)], "as": rng.choice(["array", "list"])}
+    if kind == "empty":
+        return {"kind": "list", "idx": []}
+    if kind == "int":
+        return {"kind": "int", "i": rng.randrange(-n, n)}
+    idx = [rng.randrange(-n, n) for _ in range(rng.choice([1, 2, n, n + 2]))] if n else []
+    if bad and kind == "list":
+        idx.insert(rng.randrange(len(idx) + 1), rng.choice([n, n + 1, -n - 1]))
+    if kind == "array":
+        dt = rng.choice(["i8", "i8", "i4", "i2", "u4"])
+        if dt == "u4":
+            idx = [i % n for i in idx] if n else []
+        return {"kind": "array", "idx": idx, "dtype": dt}
+    return {"kind": "list", "idx": idx}
+
+
+def resolve_index(spec, n):
+    """the positions las[spec] selects among n points, in order (Python / numpy indexing rules); IndexError when numpy refuses"""
+    k = spec["kind"]
+    if k == "slice":
+        return list(range(*slice(spec["a"], spec["b"], spec["step"]).indices(n)))
+    if k == "mask":
+        if len(spec["bits"]) != n:
+            raise IndexError("mask length")
+        return [i for i, b_ in enumerate(spec["bits"]) if b_]
+    idx = [spec["i"]] if k == "int" else spec["idx"]
+    for i in idx:
+        if not -n <= i < n:
+            raise IndexError("out of range")
+    return [i % n for i in idx]
+
+
+def index_object(spec):
+    if spec["kind"] == "slice":
+        return slice(spec["a"], spec["b"], spec["step"])
+    if spec["kind"] == "mask":
+        return np.array(spec["bits"], dtype=bool) if spec.get("as") != "list" or not spec["bits"] else [bool(b_) for b_ in spec["bits"]]
+    if spec["kind"] == "int":
+        return int(spec["i"])
+    if spec["kind"] == "array":
+        return np.array(spec["idx"], dtype=spec["dtype"])
+    return list(spec["idx"])
+
+
+def rand_fork(rng, cur, how=None, cont=None, kind=None):
+    how = how or rng.choice(FORK_HOWS)
+    op = {"op": "fork", "how": how}
+    if how == "select":
+        op["index"] = rand_index(rng, cur, kind=kind, bad=rng.random() < 0.08)
+        op["cont"] = cont or ("self" if op["index"]["kind"] == "int" else rng.choice(["new", "self"]))
+    elif how in ("reader", "reader_twice"):
+        op["cont"] = "new"          # the history goes on with the LasData the reader returned; the reader (its other LasData) stays
+    elif how == "writer":
+        op["cont"] = "self"         # the writer was given las.header; it gets the points it was opened for at the end
+    else:
+        op["cont"] = cont or rng.choice(["new", "self"])
+    return op
+
+
+def gen_history(rng, reserved, fmt=None, steps=None, npts=None, plan=None, build=None, init=None, sibling=None, sib_ops=None):
     """a history: how the LasData is built (header parameters, the extra dimensions its PointFormat carries from the start, the bytes
     of its points, VLRs and how they are installed, an optional sibling LasData built the same way), and up to 12 operations ending
     with a round trip.  `plan` (optional) is a list of forced first operations given as callables(shadow, current number of points) -> op."""
@@ -400,6 +522,7 @@ def gen_history(rng, reserved, fmt=None, steps=None, npts=None, plan=None, build
     if sibling is None and rng.random() < (0.6 if build.startswith("default") else 0.15):
         sibling = rng.choice(["older", "younger"])
     sib = None
+    retired = []     # (name, type) of dimensions that existed in this process under that name: removed here, or the sibling's
     if sibling:
         used = {bytes.fromhex(d["name"]).decode() for d in shadow}
         d1 = rand_dim(rng, used, reserved)
@@ -407,7 +530,11 @@ def gen_history(rng, reserved, fmt=None, steps=None, npts=None, plan=None, build
         sops = [{"op": "add", "dims": [d1, d2], "single": False}]
         if rng.random() < 0.4:
             sops.append({"op": "remove", "names": [rng.choice([d1, d2])["name"]], "single": True})
+        if sib_ops is not None:
+            sops = sib_ops
         sib = {"when": sibling, "ops": sops if sibling == "older" else []}
+        for o in sib["ops"]:
+            retired.extend((d["name"], tuple(d["type"])) for d in o.get("dims", []))
     h = {"version": ver, "fmt": fmt, "npts": npts, "build": build, "init_dims": [dict(d) for d in shadow],
          "raw": hx(rand_records(rng, fmt, shadow, npts)), "vlrs": rand_vlrs(rng), "vlr_install": rng.choice(["append", "append", "setter"]),
          "sibling": sib, "ops": [],
@@ -415,7 +542,7 @@ def gen_history(rng, reserved, fmt=None, steps=None, npts=None, plan=None, build
     steps = rng.choice([2, 4, 6, 8, 11]) if steps is None else steps
     import laspy.point.dims as dims
     queue = list(plan or [])
-    cur = npts       # whole-record assignments change the number of points
+    cur = npts       # whole-record assignments and selections change the number of points
     curfmt, curver = fmt, ver     # conversions change the point format and may raise the version
     reg = None       # what the extra-bytes VLR registers: None = every dimension, k = the first k, "absent" = there is no VLR
     while len(h["ops"]) < steps:
@@ -432,9 +559,9 @@ def gen_history(rng, reserved, fmt=None, steps=None, npts=None, plan=None, build
             k = rng.random()
             used = {bytes.fromhex(d["name"]).decode() for d in shadow}
             k0 = rng.random()
-            if k0 < 0.11:
+            if k0 < 0.10:
                 op = rand_set_points(rng, curfmt, shadow, cur, reserved, mismatch=rng.choice(MISMATCHES) if rng.random() < 0.2 else None)
-            elif k0 < 0.19:
+            elif k0 < 0.17:
                 op = rand_convert(rng, curfmt, curver)
                 if op["fmt"] != curfmt and len(h["ops"]) < steps - 1:
                     h["ops"].append({"op": "assign_std", "size": std_dtype(curfmt).itemsize,
@@ -443,14 +570,23 @@ def gen_history(rng, reserved, fmt=None, steps=None, npts=None, plan=None, build
                     op["fmt"] = curfmt
                     if op["version"] is not None and curfmt not in lasio.COMPAT[op["version"]]:
                         op["version"] = None
-            elif k0 < 0.25 and shadow:
+            elif k0 < 0.22 and shadow:
                 op = rand_reread(rng, shadow, reg)
                 if op is None:
                     continue
+            elif k0 < 0.32:
+                op = rand_fork(rng, cur)
             elif k < 0.36 or (not shadow and k < 0.7):
                 dims_ = []
                 for _ in range(rng.choice([1, 1, 1, 2, 3])):
-                    d = rand_dim(rng, used, reserved)
+                    again = [r for r in retired if bytes.fromhex(r[0]).decode() not in used]
+                    if again and rng.random() < 0.5:
+                        # a name that was in use before (in this LasData or in the sibling) comes back, mostly with a type of the
+                        # same layout (element count and width) and another kind
+                        nm, t_old = rng.choice(again)
+                        d = rand_dim(rng, used, reserved, t=twin_type(rng, t_old), name=bytes.fromhex(nm).decode())
+                    else:
+                        d = rand_dim(rng, used, reserved)
                     used.add(bytes.fromhex(d["name"]).decode())
                     dims_.append(d)
                 op = {"op": "add", "dims": dims_, "single": len(dims_) == 1 and rng.random() < 0.5}
@@ -459,13 +595,11 @@ def gen_history(rng, reserved, fmt=None, steps=None, npts=None, plan=None, build
                 names = rng.sample([d["name"] for d in shadow], min(cnt, len(shadow)))
                 op = {"op": "remove", "names": names, "single": len(names) == 1 and rng.random() < 0.5, "as": rng.choice(["list", "tuple", "iter"])}
             elif k < 0.71 and shadow:
-                d = rng.choice(shadow)
-                op = {"op": "assign", "name": d["name"], "size": type_size(tuple(d["type"])),
-                      "raw": hx(rand_values(rng, tuple(d["type"]), d["scale"] is not None, cur))}
+                op = assign_op(rng, rng.choice(shadow), cur)
             elif k < 0.76:
                 op = {"op": "assign_std", "size": std_dtype(curfmt).itemsize, "raw": hx(rand_std(rng, curfmt, cur))}
             elif k < 0.86:
-                op = {"op": "roundtrip", "via": rng.choice(["write", "write", "writer"])}
+                op = {"op": "roundtrip", "via": rng.choice(ROUNDTRIP_VIAS)}
             else:
                 good = [d["name"] for d in shadow]
                 bad_kind = rng.choice(["standard", "unknown", "duplicate", "empty"]) if good else rng.choice(["standard", "unknown", "empty"])
@@ -492,6 +626,7 @@ def gen_history(rng, reserved, fmt=None, steps=None, npts=None, plan=None, build
             shadow.extend(op["dims"])
             reg = None
         elif op["op"] == "remove" and remove_is_valid(shadow, op["names"]):
+            retired.extend((d["name"], tuple(d["type"])) for d in shadow if d["name"] in op["names"])
             shadow[:] = [d for d in shadow if d["name"] not in op["names"]]
             reg = None
         elif op["op"] == "set_points" and not op.get("mismatch"):
@@ -502,8 +637,19 @@ def gen_history(rng, reserved, fmt=None, steps=None, npts=None, plan=None, build
             reg = None
         elif op["op"] == "reread":
             shadow[:], reg = reread_effect(shadow, reg, op["keep"])
+        elif op["op"] == "fork" and op["how"] == "select" and op["cont"] == "new":
+            try:
+                cur = len(resolve_index(op["index"], cur))
+            except IndexError:
+                pass
     h["ops"].append({"op": "roundtrip", "via": rng.choice(["write", "writer"])})
     return h
+
+
+def assign_op(rng, d, cur):
+    """values for one extra dimension, given in the element type the dimension was DECLARED with"""
+    t = tuple(d["type"])
+    return {"op": "assign", "name": d["name"], "size": type_size(t), "type": list(t), "raw": hx(rand_values(rng, t, d["scale"] is not None, cur))}
 
 
 def remove_is_valid(shadow, names):
@@ -585,11 +731,13 @@ def mk_param(d):
 
 
 def build_record(las, op):
-    """the record a whole-record assignment assigns: obtained the way op['source'] says, then filled with op['raw']"""
+    """the record a whole-record assignment assigns: obtained the way op['source'] says, then filled with op['raw'];
+    returns (record, the other LasData the record was taken from or None)"""
     import laspy
     from laspy.point import record
     src, m = op["source"], op["npts"]
     fmt = las.header.point_format.id
+    donor = None
     if src == "self":
         rec = las.points
     elif src == "copy":
@@ -599,7 +747,8 @@ def build_record(las, op):
     elif src == "reread":
         bio = io.BytesIO()
         las.write(bio)
-        rec = laspy.read(io.BytesIO(bio.getvalue())).points
+        donor = laspy.read(io.BytesIO(bio.getvalue()))
+        rec = donor.points
     elif src == "other":
         other = laspy.LasData(laspy.LasHeader(version=str(las.header.version), point_format=fmt))
         ps = [mk_param(d) for d in op["dims"]]
@@ -610,6 +759,7 @@ def build_record(las, op):
             other.add_extra_dims(ps)
         other.points = record.ScaleAwarePointRecord.zeros(m, header=other.header)
         rec = other.points
+        donor = other
     elif src == "packed":
         pf = laspy.PointFormat(fmt)
         for d in op["dims"]:
@@ -621,22 +771,67 @@ def build_record(las, op):
         raise RuntimeError(f"harness: source {src} gave {len(rec.array)} points, wanted {m}")
     if m:
         rec.array[...] = np.frombuffer(bytes.fromhex(op["raw"]), dtype=rec.array.dtype)
-    return rec
+    return rec, donor
 
 
-def write_read(las, via, rng_chunks=None):
-    """las -> file bytes -> LasData, through LasData.write or through laspy.open(mode="w") + write_points in chunks"""
+_TMP = [0]
+
+
+def tmp_path():
+    import os
+    _TMP[0] += 1
+    return f"/var/tmp/c13_{os.getpid()}_{_TMP[0]}.las"
+
+
+def write_file(las, via):
+    """the bytes of the LAS file `las` is written to: LasData.write to a stream / to a path, or laspy.open(mode="w") + write_points
+    in up to 3 chunks"""
     import laspy
-    bio = io.BytesIO()
+    import os
+    if via == "writer" and las.points.array.ndim == 0:
+        via = "write"           # one point selected by an integer: nothing to cut into chunks
     if via == "writer":
+        bio = io.BytesIO()
         n = len(las.points)
         cuts = sorted({0, n, n // 3, (2 * n + 2) // 3})
         with laspy.open(bio, mode="w", header=las.header, closefd=False) as w:
             for a_, b_ in zip(cuts, cuts[1:]):
                 w.write_points(las.points[a_:b_])
-    else:
-        las.write(bio)
-    return laspy.read(io.BytesIO(bio.getvalue()))
+        return bio.getvalue()
+    if via in ("path", "mmap"):
+        path = tmp_path()
+        try:
+            las.write(path)
+            with open(path, "rb") as f:
+                return f.read()
+        finally:
+            if os.path.exists(path):
+                os.remove(path)
+    bio = io.BytesIO()
+    las.write(bio)
+    return bio.getvalue()
+
+
+def read_file(data, via):
+    """file bytes -> LasData: laspy.read of a stream / of a path, or laspy.mmap of a path"""
+    import laspy
+    import os
+    if via in ("path", "mmap"):
+        path = tmp_path()
+        try:
+            with open(path, "wb") as f:
+                f.write(data)
+            return laspy.mmap(path) if via == "mmap" else laspy.read(path)
+        finally:
+            os.remove(path)         # a mapped file stays readable and writable after it was unlinked
+    return laspy.read(io.BytesIO(data))
+
+
+def write_read(las, via, aux=None):
+    data = write_file(las, via)
+    if aux is not None:
+        aux["file"] = data
+    return read_file(data, via)
 
 
 def same_values(a, b):
@@ -644,13 +839,51 @@ def same_values(a, b):
     return (a.dtype == b.dtype and a.shape == b.shape and a.tobytes() == b.tobytes()) or np.array_equal(a, b)
 
 
-SNAP_KEYS = ("fmt", "extras", "names", "bytes", "vlrs", "hdr_vlrs", "itemsize", "pf_size", "hdr_pf_size", "npts", "same_format")
+SNAP_KEYS = ("fmt", "extras", "names", "ftypes", "bytes", "vlrs", "hdr_vlrs", "itemsize", "pf_size", "hdr_pf_size", "npts", "same_format")
+
+
+class WriterWitness:
+    """a writer that was given las.header, and the points it was opened for: they are written when the history is over"""
+
+    def __init__(self, las):
+        import laspy
+        self.bio = io.BytesIO()
+        self.saved = las.points.copy()
+        self.writer = laspy.open(self.bio, mode="w", header=las.header, closefd=False)
+
+    def finish(self):
+        import laspy
+        self.writer.write_points(self.saved)
+        self.writer.close()
+        return laspy.read(io.BytesIO(self.bio.getvalue()))
+
+
+class ReaderWitness:
+    """a reader that returned a LasData and stays open: it reads its file again when the history is over"""
+
+    def __init__(self, reader):
+        self.reader = reader
+
+    def finish(self):
+        if self.reader.header.point_count:
+            self.reader.seek(0)
+        return self.reader.read()
+
+
+def typed_values(op, npts):
+    """the values an assignment gives, as an array of the element type the dimension was declared with"""
+    base, n = np_base(tuple(op["type"]))
+    vals = np.frombuffer(bytes.fromhex(op["raw"]), dtype=base)
+    return vals.reshape((npts, n)) if (op["type"][0] == "o" or n > 1) else vals
 
 
 def apply_op(las, op):
-    """returns (las, status, aux) — aux: observations the property speaks about that are not part of the resulting state"""
+    """returns (las, status, aux) — aux: observations the property speaks about that are not part of the resulting state;
+    aux['_witnesses']: (kind, object, role) of every other live object this step leaves behind"""
     import laspy
+    import copy
     aux = {}
+    wit = aux.setdefault("_witnesses", [])
     try:
         k = op["op"]
         if k == "add":
@@ -668,8 +901,13 @@ def apply_op(las, op):
         elif k == "assign":
             name = bytes.fromhex(op["name"]).decode()
             arr = las.points.array
-            sub = arr.dtype.fields[name][0]
-            vals = np.frombuffer(bytes.fromhex(op["raw"]), dtype=sub.base).reshape((len(arr),) + sub.shape)
+            if "type" in op:
+                vals = typed_values(op, arr.size)
+                if arr.ndim == 0:
+                    vals = vals[0]
+            else:                      # histories recorded by earlier rounds
+                sub = arr.dtype.fields[name][0]
+                vals = np.frombuffer(bytes.fromhex(op["raw"]), dtype=sub.base).reshape((len(arr),) + sub.shape)
             dim = las.point_format.dimension_by_name(name)
             if dim.is_scaled:
                 arr[name] = vals          # stored values; the scaled presentation is C11's subject
@@ -679,15 +917,19 @@ def apply_op(las, op):
             dt = std_dtype(las.point_format.id)
             blk = np.frombuffer(bytes.fromhex(op["raw"]), dtype=dt)
             for f in dt.names:
-                las.points.array[f] = blk[f]
+                las.points.array[f] = blk[f] if las.points.array.ndim else blk[f][0]
         elif k == "set_points":
             try:
-                rec = build_record(las, op)
+                rec, donor = build_record(las, op)
             except Exception as ex:   # noqa: BLE001 — not the outcome of the assignment itself
                 return las, "err:obtaining the record (" + op["source"] + "):" + common.exc_kind(ex), aux
+            if donor is not None:
+                wit.append(("the LasData whose record was assigned (" + op["source"] + ")", donor, "donor"))
             las.points = rec
         elif k == "roundtrip":
-            las = write_read(las, op.get("via", "write"))
+            new = write_read(las, op.get("via", "write"), aux)
+            wit.append(("source of a round trip", las, "old"))
+            las = new
         elif k == "convert":
             src = las
             before = snapshot(src)
@@ -700,24 +942,75 @@ def apply_op(las, op):
             new_std = {d.name for d in new.point_format.standard_dimensions}
             aux["std_changed"] = [d.name for d in src.point_format.standard_dimensions if d.name in new_std and not same_values(src[d.name], new[d.name])]
             aux["version"] = str(new.header.version)
+            wit.append(("source of a conversion", src, "old"))
             las = new
         elif k == "reread":
-            # a file whose extra-bytes VLR registers only the first `keep` dimensions, or that has no such VLR
-            ebs = las.vlrs.get("ExtraBytesVlr")
+            # a file whose extra-bytes VLR registers only the first `keep` dimensions, or that has no such VLR: written from a copy
+            # of the LasData whose VLR list was cut
+            cut = laspy.LasData(copy.deepcopy(las.header), las.points.copy())
+            ebs = cut.vlrs.get("ExtraBytesVlr")
             if op["keep"] is None:
-                las.vlrs.extract("ExtraBytesVlr")
+                if ebs:
+                    cut.vlrs.extract("ExtraBytesVlr")
             elif ebs:
                 ebs[0].extra_bytes_structs = ebs[0].extra_bytes_structs[:op["keep"]]
-            las = write_read(las, op.get("via", "write"))
+            new = write_read(cut, op.get("via", "write"), aux)
+            wit.append(("source of a re-read", las, "old"))
+            las = new
+        elif k == "fork":
+            las = apply_fork(las, op, aux, wit)
         return las, "ok", aux
     except Exception as ex:   # noqa: BLE001 — canonicalised
         return las, "err:" + common.exc_kind(ex), aux
 
 
+def apply_fork(las, op, aux, wit):
+    """another live object is obtained from `las` through the public API; the history goes on with one of the two"""
+    import laspy
+    import copy
+    how = op["how"]
+    if how == "select":
+        new, kind = las[index_object(op["index"])], "selection " + op["index"]["kind"]
+    elif how == "copy":
+        new, kind = laspy.LasData(copy.deepcopy(las.header), las.points.copy()), "copy (header deep-copied, points.copy())"
+    elif how == "share_header":
+        new = laspy.LasData(las.header, las.points.copy())
+        aux["header_shared"] = new.header is las.header
+        if op["cont"] == "new":
+            wit.append(("LasData whose header object was given to another LasData", las, "shared"))
+            return new
+        wit.append(("LasData made from the SAME header object", new, "shared"))
+        return las
+    elif how in ("reader", "reader_twice"):
+        data = write_file(las, "write")
+        aux["file"] = data
+        reader = laspy.open(io.BytesIO(data))
+        new, kind = reader.read(), "LasData returned by a reader"
+        aux["header_shared"] = new.header is reader.header
+        # LasReader.read() hands its own header object to the LasData (and completes it afterwards with the EVLRs): while that is
+        # so, what the LasData does to its header reaches the reader and every other LasData of that reader (pinned, not judged)
+        if how == "reader_twice":
+            if reader.header.point_count:
+                reader.seek(0)
+            wit.append(("second LasData returned by the same reader", reader.read(), "twin", aux["header_shared"]))
+        else:
+            wit.append(("reader that returned the LasData", ReaderWitness(reader), "reader", aux["header_shared"]))
+    elif how == "writer":
+        wit.append(("writer that was given the header", WriterWitness(las), "writer"))
+        return las
+    else:
+        raise ValueError("unknown fork " + how)
+    if op["cont"] == "new":
+        wit.append(("parent of: " + kind, las, "old"))
+        return new
+    wit.append((kind, new, "new"))
+    return las
+
+
 def snapshot(las):
     """everything the property can observe after a step"""
     pf = las.point_format
-    arr = las.points.array
+    arr = np.atleast_1d(las.points.array)         # las[i] holds a 0-d record
     extras = []
     for d in pf.extra_dimensions:
         t = spec_type(d.dtype)
@@ -727,14 +1020,19 @@ def snapshot(las):
                   [lasio.f64bits(x) for x in np.atleast_1d(d.offsets)] if d.offsets is not None else None]
         extras.append({"name": d.name.encode(), "type": t, "scale": sc, "desc": d.description.encode()})
     fields = {}
-    for n in arr.dtype.names:
-        fields[n] = (arr.dtype.fields[n][1], arr.dtype.fields[n][0].itemsize, bytes(np.ascontiguousarray(arr[n]).tobytes()))
+    ftypes = {}
+    nstd = len(std_dtype(pf.id).names)
+    for j, n in enumerate(arr.dtype.names):
+        sub = arr.dtype.fields[n][0]
+        fields[n] = (arr.dtype.fields[n][1], sub.itemsize, bytes(np.ascontiguousarray(arr[n]).tobytes()))
+        if j >= nstd:
+            ftypes[n] = spec_type(sub) if sub.base.byteorder in "<|=" else ("?", str(sub))     # the type the RECORD stores the values with
     hextras = [(d.name, str(d.dtype), None if d.scales is None else tuple(lasio.f64bits(x) for x in d.scales),
                 None if d.offsets is None else tuple(lasio.f64bits(x) for x in d.offsets), d.description) for d in las.header.point_format.extra_dimensions]
     pextras = [(d.name, str(d.dtype), None if d.scales is None else tuple(lasio.f64bits(x) for x in d.scales),
                 None if d.offsets is None else tuple(lasio.f64bits(x) for x in d.offsets), d.description) for d in pf.extra_dimensions]
     return {
-        "fmt": pf.id, "extras": extras, "names": list(arr.dtype.names), "fields": fields, "itemsize": arr.dtype.itemsize,
+        "fmt": pf.id, "extras": extras, "names": list(arr.dtype.names), "fields": fields, "ftypes": ftypes, "itemsize": arr.dtype.itemsize,
         "pf_size": pf.size, "hdr_pf_size": las.header.point_format.size, "same_format": hextras == pextras and las.header.point_format.id == pf.id,
         "bytes": bytes(np.ascontiguousarray(arr).tobytes()), "npts": len(arr),
         "vlrs": [lasio.vlr_tuple(v) for v in las.vlrs], "hdr_vlrs": [lasio.vlr_tuple(v) for v in las.header.vlrs],
@@ -742,9 +1040,16 @@ def snapshot(las):
     }
 
 
+def safe_snapshot(obj):
+    try:
+        return ("ok", snapshot(obj))
+    except Exception as ex:   # noqa: BLE001
+        return ("err:" + common.exc_kind(ex), None)
+
+
 def run_impl(h):
     """snapshots after the construction and after every operation: [(status, snapshot, aux)]; the construction's aux holds the
-    observations about the sibling LasData"""
+    observations about the sibling LasData and about every other object the history left alive (aux0['witnesses'])"""
     sib, sib0 = None, None
     spec = h.get("sibling")
     aux0 = {}
@@ -766,9 +1071,29 @@ def run_impl(h):
         las = laspy.LasData(laspy.LasHeader(version=h["version"], point_format=h["fmt"]))
         status = "err:" + common.exc_kind(ex)
     snaps = [(status, snapshot(las), aux0)]
-    for op in h["ops"]:
+    witnesses = []       # every other object a step left alive: observed after each later step, written / finished at the end
+    for i, op in enumerate(h["ops"]):
+        shares = [w["role"] not in ("reader", "writer") and bool(np.shares_memory(w["obj"].points.array, las.points.array)) for w in witnesses]
         las, status, aux = apply_op(las, op)
+        for w, sh in zip(witnesses, shares):
+            if w["role"] not in ("reader", "writer"):
+                w["snaps"].append((i, sh) + safe_snapshot(w["obj"]))
+        for kind, obj, role, *rest in aux.pop("_witnesses", []):
+            w = {"kind": kind, "role": role, "born": i, "obj": obj, "snaps": [], "final": None, "pinned": bool(rest and rest[0])}
+            if role not in ("reader", "writer"):
+                w["snaps"].append((i, False) + safe_snapshot(obj))
+            witnesses.append(w)
         snaps.append((status, snapshot(las), aux))
+    for w in witnesses:          # when the history is over every one of them can still be written and read back / do its job
+        try:
+            if w["role"] in ("reader", "writer"):
+                w["final"] = ("ok", snapshot(w["obj"].finish()))
+            else:
+                w["final"] = ("ok", snapshot(write_read(w["obj"], "write")))
+        except Exception as ex:   # noqa: BLE001
+            w["final"] = ("err:" + common.exc_kind(ex), None)
+        del w["obj"]
+    aux0["witnesses"] = witnesses
     if sib is not None:
         aux0["sibling"] = (sib0, snapshot(sib))
     # after the history: a LasData built the same way must again start as constructed.  Whatever it has beyond that is given back
@@ -794,6 +1119,8 @@ def dim_tok(d):
 
 
 def op_tok(op):
+    """the model operation of a step (world operations of Model/ExtraDims.v); None: the step has no counterpart in the model (it
+    leaves the LasData of the history as it is and creates an object the model does not have: a writer)"""
     k = op["op"]
     if k == "add":
         return "A!" + "+".join(dim_tok(d) for d in op["dims"])
@@ -805,15 +1132,35 @@ def op_tok(op):
         return f"T!{op['size']}!x{op['raw']}"
     if k == "set_points":
         return "P!" + ("+".join(dim_tok(d) for d in op["dims"]) or "-") + f"!{op['size']}!x{op['raw']}"
-    if k == "convert":
-        return f"C!{op['fmt']}!{std_dtype(op['fmt']).itemsize}!x{op.get('_std_after', '')}"
+    if k == "convert":       # returns a LasData; the source stays alive
+        return f"N:C!{op['fmt']}!{std_dtype(op['fmt']).itemsize}!x{op.get('_std_after', '')}"
     if k == "reread":
-        return "U!" + ("-" if op["keep"] is None else str(op["keep"]))
-    return "W"
+        return "N:U!" + ("-" if op["keep"] is None else str(op["keep"]))
+    if k == "fork":
+        how = op["how"]
+        if how == "select":
+            spec = op["index"]
+            if spec["kind"] in ("slice", "mask"):
+                idx = resolve_index(spec, op["_npts"])       # positions, by Python's slice rule / the mask
+            else:
+                idx = [spec["i"]] if spec["kind"] == "int" else spec["idx"]
+            return "F!" + ("T" if op["cont"] == "new" else "F") + "!" + common.zl(idx)
+        if how in ("copy", "share_header"):
+            return "K"
+        if how in ("reader", "reader_twice"):
+            return "N:W"
+        return None
+    return "N:W"
+
+
+MODELLED_ROLES = ("old", "new", "shared")       # the live objects the model's world has, in order of appearance
 
 
 def observe_converted(h, snaps):
     """the standard blocks laspy.convert produced (property C12's subject) are an input of the model's Convert"""
+    for op, before in zip(h["ops"], snaps):
+        if op["op"] == "fork":
+            op["_npts"] = before[1]["npts"]
     for op, (status, sn, _) in zip(h["ops"], snaps[1:]):
         if op["op"] == "convert":
             size = std_dtype(op["fmt"]).itemsize
@@ -828,8 +1175,9 @@ def model_cmd(h):
     vl = "|".join(f"x{u}:{r}:x{d}:x{p}" for u, r, d, p in h["vlrs"]) or "-"
     dims = init_dims_of(h)
     size = std_dtype(h["fmt"]).itemsize + sum(type_size(tuple(d["type"])) for d in dims)
-    return (f"hist2 {h['fmt']} " + ("+".join(dim_tok(d) for d in dims) or "-") + f" {size} x{init_raw_of(h)} {vl} "
-            + ("T" if h.get("vlr_install") == "setter" else "F") + " " + ";".join(op_tok(o) for o in h["ops"]))
+    toks = [t for t in (op_tok(o) for o in h["ops"]) if t is not None]
+    return (f"hist3 {h['fmt']} " + ("+".join(dim_tok(d) for d in dims) or "-") + f" {size} x{init_raw_of(h)} {vl} "
+            + ("T" if h.get("vlr_install") == "setter" else "F") + " " + ";".join(toks))
 
 
 def snap_tokens(status, sn, nstd):
@@ -855,6 +1203,9 @@ def op_label(op):
         return "re-read of a file whose VLR registers " + ("nothing (no VLR)" if op["keep"] is None else "a prefix of the dimensions")
     if k == "set_points":
         return "whole-record assignment (" + op["source"] + (", other format: " + op["mismatch"] if op.get("mismatch") else "") + ")"
+    if k == "fork":
+        return "another live object (" + op["how"] + (" " + op["index"]["kind"] if op["how"] == "select" else "") + "), history goes on with the " + (
+            "new one" if op["cont"] == "new" else "old one")
     return k + (" bad " + op["bad"] if op.get("bad") else "")
 
 
@@ -862,22 +1213,45 @@ COMPONENTS = ["outcome", "point format", "record bytes", "dimension values", "vl
 
 
 def compare(h, snaps, mline):
-    """-> list of (step index, op kind, component) where model and implementation differ (step -1: the construction)"""
+    """-> list of (step index, op kind, component) where model and implementation differ (step -1: the construction; step = number
+    of operations: another live object at the end of the history)"""
     out = []
-    head, _, rest = mline.partition(" ")
-    if head != "fresh=T":
+    parts = mline.split(" ")
+    if parts[0] != "fresh=T" or len(parts) != 3:
         raise RuntimeError("generator produced a history outside the model's hypothesis: " + mline[:80])
-    steps = rest.split(";") if rest != "-" else []
-    if len(steps) != len(h["ops"]) + 1:
-        return [(-1, "protocol", f"model returned {len(steps)} states for {len(h['ops'])} operations: {mline[:100]}", "", "")]
+    steps = parts[1].split(";")
+    modelled = [i for i, o in enumerate(h["ops"]) if op_tok(o) is not None]
+    if len(steps) != len(modelled) + 1:
+        return [(-1, "protocol", f"model returned {len(steps)} states for {len(modelled)} operations: {mline[:100]}", "", "")]
     nstd = len(std_dtype(h["fmt"]).names)
     labels = ["initial state" + (" next to a sibling" if h.get("sibling") else "")] + [op_label(o) for o in h["ops"]]
-    for i, mst in enumerate(steps):
+    expect = [steps[0]]
+    for i, o in enumerate(h["ops"]):          # a step without counterpart leaves the current object as it is
+        expect.append(steps[1 + modelled.index(i)] if i in modelled else "ok@" + expect[-1].split("@", 1)[1])
+    for i, mst in enumerate(expect):
         mt = mst.split("@")
         it = snap_tokens(snaps[i][0], snaps[i][1], nstd)
         for c, (a, b) in enumerate(zip(mt, it)):
             if a != b:
                 out.append((i - 1, labels[i], COMPONENTS[c], a[:160], b[:160]))
+                break
+        if out:
+            return out
+    # the other live objects, as the history leaves them
+    others = parts[2].split("#") if parts[2] != "-" else []
+    wits = [w for w in snaps[0][2].get("witnesses", []) if w["role"] in MODELLED_ROLES]
+    if len(others) != len(wits):
+        return [(len(h["ops"]), "other live objects", "count", str(len(others)), str(len(wits)))]
+    for mo, w in zip(others, wits):
+        if w["role"] == "shared" or not w["snaps"]:
+            continue          # one header object in two LasData by the caller's own doing: not compared
+        j, _, st, sn = w["snaps"][-1]
+        touched = any(sh and h["ops"][jj]["op"] in IN_PLACE for jj, sh, _, _ in w["snaps"])     # a numpy view followed an in-place assignment
+        mt = ["ok"] + mo.split("@")
+        it = snap_tokens(st, sn, nstd) if sn is not None else [st, "?", "?", "?", "?"]
+        for c, (a, b) in enumerate(zip(mt, it)):
+            if a != b and not (touched and COMPONENTS[c] in ("record bytes", "dimension values")):
+                out.append((len(h["ops"]), "another live LasData at the end of the history (" + w["kind"] + ")", COMPONENTS[c], a[:160], b[:160]))
                 break
         if out:
             break
@@ -906,6 +1280,30 @@ def expected_descriptor(d):
             "desc": bytes.fromhex(d["desc"]).ljust(32, b"\0"), "scale": d["scale"]}
 
 
+def check_descriptors(described, payload):
+    """the 192-byte descriptors of an extra-bytes VLR against the dimensions they have to describe; a text or None"""
+    for d, got_d in zip(described, parse_descriptors(payload)):
+        e = expected_descriptor(d)
+        what = None
+        if got_d["type"] != e["type"]:
+            what = f"data type {got_d['type']} expected {e['type']}"
+        elif e["opaque"] and got_d["options"] != e["n"]:
+            what = f"opaque array of {e['n']} bytes described with options {got_d['options']}"
+        elif got_d["name"] != e["name"]:
+            what = f"name {got_d['name']!r}"
+        elif got_d["desc"] != e["desc"]:
+            what = f"description {got_d['desc']!r}"
+        elif not e["opaque"]:
+            flags = got_d["options"] & 0x18
+            if e["scale"] is None and flags:
+                what = f"unscaled dimension described with options {got_d['options']:#x}"
+            elif e["scale"] is not None and (flags != 0x18 or list(got_d["scale"][:e["n"]]) != e["scale"][0] or list(got_d["offset"][:e["n"]]) != e["scale"][1]):
+                what = f"scales/offsets {got_d['scale'][:e['n']]} {got_d['offset'][:e['n']]} options {got_d['options']:#x}"
+        if what:
+            return f"descriptor of {bytes.fromhex(d['name'])!r}: {what}"
+    return None
+
+
 def check_state(shadow, sn, fmt, reg=None):
     """(I2) and (I3) and format = expected dimensions; returns a (kind, text) or None.  reg: what the extra-bytes VLR has to
     register — None: every dimension (I3); k: exactly the first k (a file with un-registered trailing bytes was read and no add /
@@ -925,16 +1323,21 @@ def check_state(shadow, sn, fmt, reg=None):
     if got != exp:
         return ("point format", f"extra dimensions {[(g[0], g[1]) for g in got]} expected {[(e[0], e[1]) for e in exp]}" if [(g[0], g[1]) for g in got] != [(e[0], e[1]) for e in exp]
                 else "scales / offsets / descriptions of the extra dimensions differ from what was added")
-    # layout of the record: extra dimensions after the standard ones, in order, contiguous
+    # layout of the record: extra dimensions after the standard ones, in order, contiguous, stored with the declared element type
     pos = std
     names = sn["names"]
     nstd = len(std_dtype(fmt).names)
     if names[nstd:] != [bytes.fromhex(d["name"]).decode() for d in shadow]:
         return ("record fields", f"record has extra fields {names[nstd:]}")
     for d in shadow:
-        off, size, _ = sn["fields"][bytes.fromhex(d["name"]).decode()]
+        nm = bytes.fromhex(d["name"]).decode()
+        off, size, _ = sn["fields"][nm]
         if off != pos or size != type_size(tuple(d["type"])):
             return ("record layout", f"field {bytes.fromhex(d['name'])!r} at {off} size {size}, expected at {pos}")
+        if "ftypes" in sn and sn["ftypes"].get(nm) != tuple(d["type"]):
+            return ("record stores a dimension with another element type than declared",
+                    f"dimension {nm!r} is declared {type_str(tuple(d['type']))} (point format and VLR) but the record stores it as "
+                    f"{type_str(sn['ftypes'][nm]) if sn['ftypes'].get(nm, ('?',))[0] in 'so' else sn['ftypes'].get(nm)}")
         pos += size
     # (I3)
     if sn["vlrs"] != sn["hdr_vlrs"]:
@@ -950,30 +1353,100 @@ def check_state(shadow, sn, fmt, reg=None):
     v = ebs[0]
     if v[0] != EB_UID or v[1] != EB_RID or len(v[3]) != 192 * len(described):
         return ("extra-bytes VLR identity", f"user id {v[0]!r} record id {v[1]} payload {len(v[3])} bytes for {len(described)} dimensions")
-    for d, got_d in zip(described, parse_descriptors(v[3])):
-        e = expected_descriptor(d)
-        what = None
-        if got_d["type"] != e["type"]:
-            what = f"data type {got_d['type']} expected {e['type']}"
-        elif e["opaque"] and got_d["options"] != e["n"]:
-            what = f"opaque array of {e['n']} bytes described with options {got_d['options']}"
-        elif got_d["name"] != e["name"]:
-            what = f"name {got_d['name']!r}"
-        elif got_d["desc"] != e["desc"]:
-            what = f"description {got_d['desc']!r}"
-        elif not e["opaque"]:
-            flags = got_d["options"] & 0x18
-            if e["scale"] is None and flags:
-                what = f"unscaled dimension described with options {got_d['options']:#x}"
-            elif e["scale"] is not None and (flags != 0x18 or list(got_d["scale"][:e["n"]]) != e["scale"][0] or list(got_d["offset"][:e["n"]]) != e["scale"][1]):
-                what = f"scales/offsets {got_d['scale'][:e['n']]} {got_d['offset'][:e['n']]} options {got_d['options']:#x}"
+    what = check_descriptors(described, v[3])
+    if what:
+        return ("descriptor", what)
+    return None
+
+
+def parse_las(data):
+    """what a LAS file says, read with struct from the ASPRS layout (public header block, VLR headers), independent of laspy"""
+    if data[:4] != b"LASF":
+        raise ValueError("no LASF signature")
+    minor = data[25]
+    hsize, off, nvlr = struct.unpack_from("<HII", data, 94)
+    fmt, psize, legacy = struct.unpack_from("<BHI", data, 104)
+    npts = struct.unpack_from("<Q", data, 247)[0] if minor >= 4 else legacy
+    vlrs, pos = [], hsize
+    for _ in range(nvlr):
+        uid = data[pos + 2:pos + 18].rstrip(b"\0")
+        rid, ln = struct.unpack_from("<HH", data, pos + 18)
+        vlrs.append((uid, rid, data[pos + 54:pos + 54 + ln]))
+        pos += 54 + ln
+    return {"fmt": fmt & 0x3F, "psize": psize, "npts": npts, "offset": off, "vlrs": vlrs, "points": data[off:off + npts * psize]}
+
+
+def decode_values(t, raw, limit=4):
+    """the first values of a dimension as its declared type reads them (for messages)"""
+    base, n = np_base(t)
+    return np.frombuffer(raw[:base.itemsize * n * limit], dtype=base).tolist()
+
+
+def check_file(data, shadow, described_n, sn, assigned=None):
+    """the written file, through its raw bytes: the record length is standard + extra bytes, its extra-bytes VLR declares the
+    dimensions (described_n: how many of them, None = all, "absent" = there must be no such VLR), and every extra dimension holds, at
+    its place in every point record, the bytes the LasData held (sn: its snapshot before the write) — which the oracle has already
+    compared with the values that were assigned in the DECLARED type.  Returns (kind, text) or None"""
+    try:
+        f = parse_las(data)
+    except Exception as ex:   # noqa: BLE001
+        return ("written file cannot be parsed", repr(ex))
+    std = std_dtype(sn["fmt"]).itemsize
+    exp_size = std + sum(type_size(tuple(d["type"])) for d in shadow)
+    if f["fmt"] != sn["fmt"] or f["psize"] != exp_size or f["npts"] != sn["npts"] or len(f["points"]) != exp_size * sn["npts"]:
+        return ("written file: record length", f"file says format {f['fmt']}, {f['npts']} points of {f['psize']} bytes ({len(f['points'])} bytes of points); "
+                f"expected format {sn['fmt']}, {sn['npts']} points of standard + extra = {exp_size} bytes")
+    ebs = [v for v in f["vlrs"] if v[0] == EB_UID and v[1] == EB_RID]
+    described = shadow if described_n is None else [] if described_n == "absent" else shadow[:described_n]
+    if described_n == "absent" or (described_n is None and not shadow):
+        if ebs:
+            return ("written file: stale extra-bytes VLR", f"{len(ebs)} extra-bytes VLR(s) in the file")
+    else:
+        if len(ebs) != 1 or len(ebs[0][2]) != 192 * len(described):
+            return ("written file: extra-bytes VLR", f"{len(ebs)} extra-bytes VLRs" + (f", payload {len(ebs[0][2])} bytes" if ebs else "") + f" for {len(described)} dimensions")
+        what = check_descriptors(described, ebs[0][2])
         if what:
-            return ("descriptor", f"descriptor of {bytes.fromhex(d['name'])!r}: {what}")
+            return ("written file: descriptor", what)
+    pos = std
+    for d in shadow:
+        t = tuple(d["type"])
+        size = type_size(t)
+        nm = bytes.fromhex(d["name"]).decode()
+        got = b"".join(f["points"][i * exp_size + pos:i * exp_size + pos + size] for i in range(sn["npts"]))
+        held = sn["fields"].get(nm, (0, 0, None))[2]
+        want = (assigned or {}).get(nm)
+        if want is not None and got != want:
+            return ("written file: the bytes of a dimension are not the assigned values in the declared type",
+                    f"dimension {nm!r} declared {type_str(t)}: the file holds {got[:16].hex()} = {decode_values(t, got)}, assigned were "
+                    f"{want[:16].hex()} = {decode_values(t, want)}")
+        if held is not None and got != held:
+            return ("written file: the bytes of a dimension are not its values in the declared type",
+                    f"dimension {nm!r} declared {type_str(t)}: the file holds {got[:16].hex()} = {decode_values(t, got)}, the LasData held "
+                    f"{held[:16].hex()} = {decode_values(t, held)}")
+        pos += size
     return None
 
 
 def extra_fields(sn, shadow):
     return {bytes.fromhex(d["name"]).decode(): sn["fields"].get(bytes.fromhex(d["name"]).decode(), (0, 0, None))[2] for d in shadow}
+
+
+VALUE_KEYS = ("extras", "names", "ftypes", "bytes", "vlrs", "npts")
+IN_PLACE = ("assign", "assign_std", "set_points")      # operations that write into the array the LasData holds
+
+
+def snap_diff(a, b, keys=SNAP_KEYS):
+    return [c for c in keys if a.get(c) != b.get(c)]
+
+
+def pick_rows(sn, rows):
+    w = sn["itemsize"]
+    return b"".join(sn["bytes"][i * w:(i + 1) * w] for i in rows)
+
+
+def describe_snap(sn):
+    return (f"extra dimensions {[d['name'].decode() for d in sn['extras']]}, record {sn['itemsize']} bytes x {sn['npts']}, point_format.size {sn['pf_size']}, "
+            f"header format size {sn['hdr_pf_size']}, {sum(sn['eb_class'])} extra-bytes VLR(s)")
 
 
 def oracle(h, snaps):
@@ -994,6 +1467,10 @@ def oracle(h, snaps):
         bad = ("record bytes", "the points do not hold the bytes they were given")
     if bad:
         return [(f"initial state{how}: " + bad[0], -1, built + bad[1])]
+    assigned = {}        # dimension name -> the bytes of the values last assigned to it in its declared type (while they must still be there)
+    track = []           # per step: what the LasData of the history had to be before and after it
+    labels = []
+    single = False       # the LasData is one point selected by an integer (a 0-d record)
     for i, op in enumerate(h["ops"]):
         status, sn, aux = snaps[i + 1]
         k = op["op"]
@@ -1026,8 +1503,21 @@ def oracle(h, snaps):
             label = "whole-record assignment (" + op["source"] + ")"
         if k == "reread":
             label = "re-read of a file whose VLR registers " + ("nothing (no VLR)" if op["keep"] is None else "only the first dimensions")
-        if k == "roundtrip" and op.get("via") == "writer":
-            label = "roundtrip through laspy.open(mode='w')"
+        if k == "roundtrip" and op.get("via", "write") != "write":
+            label = {"writer": "roundtrip through laspy.open(mode='w')", "path": "roundtrip through a path", "mmap": "roundtrip through a path and laspy.mmap"}[op["via"]]
+        if k == "fork":
+            label = {"select": "selection las[" + op.get("index", {}).get("kind", "") + "]", "copy": "copy of header and points",
+                     "share_header": "LasData(las.header, ...)", "reader": "reader.read()", "reader_twice": "reader.read() twice",
+                     "writer": "laspy.open(mode='w', header=las.header)"}[op["how"]]
+        if single:
+            label += " on one point selected by an integer"
+        labels.append(label)
+        rows = None
+        if k == "fork" and op["how"] == "select":
+            try:
+                rows = resolve_index(op["index"], prev["npts"])
+            except IndexError:
+                expect_err = True
         if k == "set_points" and op.get("mismatch"):
             # a record of another format: refused, nothing changes (were it taken, header / VLR and record would disagree)
             if status.startswith("err:obtaining the record"):
@@ -1037,6 +1527,11 @@ def oracle(h, snaps):
             changed = [c for c in ("extras", "names", "bytes", "vlrs", "itemsize", "pf_size", "hdr_pf_size", "npts") if sn[c] != prev[c]]
             if changed:
                 out.append((f"refused whole-record assignment ({op['mismatch']}) not atomic", i, f"after the refusal these changed: {changed}"))
+        elif expect_err and k == "fork":
+            if status != "err:EIndex":
+                out.append(("selection with an index out of range not refused with IndexError", i, f"outcome {status}"))
+            if snap_diff(prev, sn):
+                out.append(("refused selection changed the LasData", i, f"changed: {snap_diff(prev, sn)}"))
         elif expect_err:
             if status != "err:ELaspy":
                 out.append((f"remove of a {op.get('bad', 'bad')} name not refused with LaspyException", i, f"outcome {status}"))
@@ -1064,6 +1559,14 @@ def oracle(h, snaps):
             elif k == "reread":
                 kept_names = {bytes.fromhex(d["name"]).decode() for d in new_shadow[:-1]} if new_shadow != shadow else None
                 keep = [n for n in prev["names"] if n in std_now or kept_names is None or n in kept_names]
+            elif k == "fork" and rows is not None and op["cont"] == "new":
+                keep = []
+                if status == "ok":
+                    if sn["npts"] != len(rows) or sn["bytes"] != pick_rows(prev, rows):
+                        out.append((f"{label}: the selection does not hold the selected points", i, f"{sn['npts']} points, expected {len(rows)}"
+                                    if sn["npts"] != len(rows) else "the bytes of the selected points differ"))
+                    if sn["vlrs"] != prev["vlrs"]:
+                        out.append((f"{label} changed the VLRs", i, f"{len(prev['vlrs'])} -> {len(sn['vlrs'])}"))
             else:
                 keep = [n for n in prev["names"] if n not in named]
             for n in keep:
@@ -1081,12 +1584,17 @@ def oracle(h, snaps):
             if k == "assign" and status == "ok":
                 n = bytes.fromhex(op["name"]).decode()
                 if n in sn["fields"] and sn["fields"][n][2] != bytes.fromhex(op["raw"]):
-                    out.append(("assignment does not read back", i, f"dimension {n!r}"))
-            if k == "roundtrip" and status == "ok":
+                    t = tuple(op["type"]) if "type" in op else None
+                    out.append(("assignment does not read back", i, f"dimension {n!r}" + (
+                        f" declared {type_str(t)}: assigned {decode_values(t, bytes.fromhex(op['raw']))}, the record holds bytes that the declared type "
+                        f"reads as {decode_values(t, sn['fields'][n][2])}" if t else "")))
+            if (k == "roundtrip" or (k == "fork" and op["how"] != "select")) and status == "ok":
                 if sn["vlrs"] != prev["vlrs"]:
                     out.append((f"{label} changed the VLRs", i, f"{[(v[0], v[1], len(v[3])) for v in prev['vlrs']]} -> {[(v[0], v[1], len(v[3])) for v in sn['vlrs']]}"))
                 if sn["bytes"] != prev["bytes"] or sn["names"] != prev["names"]:
                     out.append((f"{label} changed values", i, f"fields {prev['names'][-3:]} -> {sn['names'][-3:]}"))
+            if k == "fork" and op["cont"] == "self" and status == "ok" and snap_diff(prev, sn):
+                out.append((f"{label} changed the LasData it was applied to", i, f"changed: {snap_diff(prev, sn)}"))
             if k == "reread" and status == "ok":
                 if sn["bytes"] != prev["bytes"] or sn["npts"] != prev["npts"]:
                     out.append((f"{label}: the points do not keep their bytes", i, f"{prev['npts']} points of {prev['itemsize']} bytes -> {sn['npts']} of {sn['itemsize']}"))
@@ -1103,15 +1611,38 @@ def oracle(h, snaps):
                 other = lambda x: [v for v, c in zip(x["vlrs"], x["eb_class"]) if not c]      # noqa: E731
                 if other(sn) != other(prev):
                     out.append(("convert changed the other VLRs", i, f"{len(other(prev))} -> {len(other(sn))}"))
+            if not out and aux.get("file") is not None and status == "ok":
+                # the file this step wrote, through its raw bytes
+                described = new_reg if k == "reread" else reg
+                badf = check_file(aux["file"], shadow, described, prev, assigned)
+                if badf:
+                    out.append((f"{label}: {badf[0]}", i, badf[1]))
         if out and k in ("convert", "reread"):
             break
+        # the values that must still be found, in the declared type, in the files written from now on
+        if status == "ok" and not expect_err:
+            if k == "assign":
+                assigned[bytes.fromhex(op["name"]).decode()] = bytes.fromhex(op["raw"])
+            elif k == "remove":
+                for n in named:
+                    assigned.pop(n, None)
+            elif k == "add":
+                for d in op["dims"]:
+                    assigned[bytes.fromhex(d["name"]).decode()] = bytes(type_size(tuple(d["type"])) * prev["npts"])
+            elif k in ("set_points", "reread") or (k == "fork" and op["how"] == "select" and op["cont"] == "new"):
+                assigned.clear()
+        track.append((shadow, fmt, reg, new_shadow, new_fmt, new_reg))
         shadow, reg, fmt = new_shadow, new_reg, new_fmt
+        if k in ("roundtrip", "convert", "reread") or (k == "fork" and op["cont"] == "new" and not expect_err):
+            single = k == "fork" and op["how"] == "select" and op["index"]["kind"] == "int"
         bad = check_state(shadow, sn, fmt, reg)
         if bad:
             out.append((f"{label}: {bad[0]}", i, bad[1]))
         prev = sn
         if out:
             break
+    if not out:
+        out.extend(oracle_witnesses(h, snaps, track, labels, aux0.get("witnesses", [])))
     sib = aux0.get("sibling")
     if sib and not out:
         before, after = sib
@@ -1126,6 +1657,83 @@ def oracle(h, snaps):
         bad = check_state([dict(d) for d in init_dims_of(h)], aux0["fresh_after"], h["fmt"])
         if bad:
             out.append(("a LasData built the same way after the history does not start as constructed: " + bad[0], len(h["ops"]), bad[1]))
+    return out
+
+
+def oracle_witnesses(h, snaps, track, labels, witnesses):
+    """every other live object a step of the history left behind (the LasData a selection / copy / conversion / round trip was made
+    from, or the one it made; the LasData whose record was assigned; a second LasData of the same reader; a reader; a writer that got
+    the header) is a LasData of its own: whatever is added to / removed from the LasData of the history afterwards, it keeps its
+    extra dimensions, record length = standard + extra bytes, its extra-bytes VLR, its values, and can still be written and read
+    back.  (Values may follow an in-place assignment while the two share the memory of their points: a slice is a numpy view.)"""
+    out = []
+    for w in witnesses:
+        if w.get("pinned"):
+            continue         # shares its header object with the LasData of the history by laspy's own design
+        b = w["born"]
+        op = h["ops"][b]
+        before, after = snaps[b][1], snaps[b + 1][1]
+        shadow0, fmt0, reg0, shadow1, fmt1, reg1 = track[b]
+        role = w["role"]
+        what = w["kind"]
+        # what it has to be when it appears
+        if role == "donor":
+            exp, wsh, wfmt, wreg = None, [dict(d) for d in op["dims"]], fmt0, (reg0 if op["source"] == "reread" else None)
+        elif role == "new" and op.get("how") == "select":
+            exp, wsh, wfmt, wreg = None, shadow0, fmt0, reg0
+        else:       # the LasData the step started from; a copy of it, a LasData made from its header, a second read; reader / writer
+            exp, wsh, wfmt, wreg = before, shadow0, fmt0, reg0
+        last = exp
+        if role not in ("reader", "writer"):
+            for j, shared_mem, st, sn in w["snaps"]:
+                label = labels[j] if j < len(labels) else "?"
+                if st != "ok":
+                    out.append((f"{h['ops'][j]['op']} left another live LasData unusable: {what}", j, f"after {label}: observing it gives {st}"))
+                    break
+                if j == b:
+                    if role == "donor":
+                        bad = check_state(wsh, sn, wfmt, wreg) or (("record bytes", "the record does not hold the assigned bytes") if sn["bytes"] != bytes.fromhex(op["raw"]) else None)
+                    elif exp is None:      # a selection
+                        rows = resolve_index(op["index"], before["npts"])
+                        bad = check_state(wsh, sn, wfmt, wreg)
+                        if bad is None and (sn["npts"] != len(rows) or sn["bytes"] != pick_rows(before, rows)):
+                            bad = ("values", "the selection does not hold the selected points")
+                        if bad is None and sn["vlrs"] != before["vlrs"]:
+                            bad = ("vlrs", "the selection has other VLRs than the LasData it was taken from")
+                    else:
+                        d = snap_diff(exp, sn)
+                        bad = ("changed", f"{d}: {describe_snap(exp)} -> {describe_snap(sn)}") if d else None
+                    if bad:
+                        out.append((f"{label}: {what}: {bad[0]}", j, bad[1]))
+                        break
+                elif role != "shared":
+                    d = snap_diff(last, sn)
+                    if shared_mem and h["ops"][j]["op"] in IN_PLACE:
+                        d = [c for c in d if c != "bytes"]
+                    if d:
+                        bad = check_state(wsh, sn, wfmt, wreg)
+                        out.append((f"{h['ops'][j]['op']} on one LasData changed another live LasData: {what}", j,
+                                    f"after {label} these changed: {d}; it had {describe_snap(last)}; it now has {describe_snap(sn)}"
+                                    + (f"; now inconsistent: {bad[0]}: {bad[1]}" if bad else "")))
+                        break
+                last = sn
+            if out:
+                break
+        if role == "shared":
+            continue             # the caller put one header object into two LasData: what one does to it reaches the other (not judged)
+        st, fin = w["final"]
+        if role == "reader":
+            ref, verb = after, "a reader that returned a LasData no longer reads its file after the history of that LasData"
+        elif role == "writer":
+            ref, verb = before, "a writer that was given las.header does not write the file it was opened for after the history of that LasData"
+        else:
+            ref, verb = last, f"another live LasData cannot be written and read back after the history: {what}"
+        if st != "ok":
+            out.append((verb, len(h["ops"]), f"outcome {st}; it had {describe_snap(ref)}"))
+        elif ref is not None and snap_diff(ref, fin, VALUE_KEYS):
+            out.append((verb, len(h["ops"]), f"these differ: {snap_diff(ref, fin, VALUE_KEYS)}; expected {describe_snap(ref)}; got {describe_snap(fin)}"))
+        if out:
+            break
     return out
 
 
@@ -1194,7 +1802,7 @@ def systematic(ctx, reserved):
 
         def assign_main(shadow, cur, t=t, npts=npts):
             d = shadow[0]
-            return {"op": "assign", "name": d["name"], "size": type_size(t), "raw": hx(rand_values(rng, t, d["scale"] is not None, npts))}
+            return assign_op(rng, d, npts)
 
         def add_other(shadow, cur):
             used = {bytes.fromhex(d["name"]).decode() for d in shadow}
@@ -1251,8 +1859,7 @@ def systematic(ctx, reserved):
 
                 def asg(shadow, cur):
                     d = rng.choice(shadow)
-                    return {"op": "assign", "name": d["name"], "size": type_size(tuple(d["type"])),
-                            "raw": hx(rand_values(rng, tuple(d["type"]), d["scale"] is not None, cur))}
+                    return assign_op(rng, d, cur)
 
                 tail = {"add": [add1], "remove": [rem1], "remove-all": [rem_all], "assign": [asg, add1], "add-remove": [add1, rem1, setp, rem1]}[follow]
                 plan = ([add2] if first else []) + [setp] + tail + [lambda s, c: {"op": "roundtrip"}]
@@ -1279,6 +1886,110 @@ def systematic(ctx, reserved):
 
         hs.append(gen_history(rng, reserved, fmt=j % 11, steps=5, npts=[2, 0, 3][j % 3], init=0, plan=[add3, bad_setp, good_setp, add1b, lambda s, c: {"op": "roundtrip"}]))
     hs.extend(systematic3(ctx, reserved))
+    hs.extend(systematic4(ctx, reserved))
+    return hs
+
+
+def systematic4(ctx, reserved):
+    """round 4: (a) a name comes back with a type of the same layout (element count and width) and another kind — in the same
+    LasData after a removal, after a round trip, or in a LasData made after a sibling used the name; values are given in the declared
+    type and followed into the bytes of the written file; (b) every way of getting another live object from a LasData x which of the
+    two the history goes on with x what is added / removed afterwards; (c) round trips through a path and through laspy.mmap"""
+    rng = ctx.rng
+    hs = []
+
+    def named(name, t, scaled=False):
+        return rand_dim(rng, set(), reserved, t=t, scaled=scaled, name=name)
+
+    def add_named(name, t, scaled=False, single=True):
+        return lambda s, c: {"op": "add", "dims": [named(name, t, scaled)], "single": single}
+
+    def add_n(n):
+        def f(shadow, cur):
+            used = {bytes.fromhex(d["name"]).decode() for d in shadow}
+            ds = []
+            for _ in range(n):
+                d = rand_dim(rng, used, reserved)
+                used.add(bytes.fromhex(d["name"]).decode())
+                ds.append(d)
+            return {"op": "add", "dims": ds, "single": n == 1}
+        return f
+
+    def asg(which=-1):
+        return lambda s, c: assign_op(rng, s[which % len(s)], c) if s else None
+
+    def rem_name(name):
+        return lambda s, c: {"op": "remove", "names": [hx(name.encode())], "single": True}
+
+    def rem(which):
+        def f(shadow, cur):
+            if not shadow:
+                return None
+            names = [d["name"] for d in shadow] if which == "all" else [shadow[which % len(shadow)]["name"]]
+            return {"op": "remove", "names": names, "single": len(names) == 1, "as": "list"}
+        return f
+
+    def rt(via="write"):
+        return lambda s, c: {"op": "roundtrip", "via": via}
+
+    # (a)
+    j = 0
+    for n in (0, 1, 2):
+        for w in ("1", "2", "4", "8"):
+            kinds = [b for b in BASE if b[1:] == w]
+            for b1 in kinds:
+                for b2 in kinds:
+                    if b1 == b2:
+                        continue
+                    j += 1
+                    t1, t2 = ("s", BASE.index(b1) + 1 + 10 * n), ("s", BASE.index(b2) + 1 + 10 * n)
+                    name = rng.choice(["v", "range", "w" + rand_text(rng, 3, (), reserved)])
+                    v = j % 4
+                    sib_ops, sibling = None, False
+                    if v == 0:
+                        plan = [add_named(name, t1), asg(), rem_name(name), add_named(name, t2), asg(), rt()]
+                    elif v == 1:
+                        plan = [add_n(1), add_named(name, t1), asg(), rt("writer"), rem_name(name), add_named(name, t2, single=False), asg(), rt("path" if j % 8 == 1 else "write")]
+                    elif v == 2:
+                        sibling, sib_ops = "older", [{"op": "add", "dims": [named(name, t1)], "single": True}]
+                        plan = [add_named(name, t2), asg(), rt()]
+                    else:
+                        plan = [add_named(name, t1, scaled=True), asg(), rem_name(name), add_named(name, t2, scaled=j % 8 == 3), asg(), rt("writer")]
+                    hs.append(gen_history(rng, reserved, fmt=3 if v == 2 else j % 11, steps=len(plan), npts=[2, 1, 3][j % 3], plan=plan, init=0,
+                                          build="default_create" if v == 2 else BUILDS[j % len(BUILDS)], sibling=sibling, sib_ops=sib_ops))
+    # (b)
+    forks = [("select", k, c) for k in ("slice", "step", "mask", "list", "array", "int", "empty") for c in ("new", "self")]
+    forks += [("copy", None, "new"), ("copy", None, "self"), ("share_header", None, "new"), ("share_header", None, "self"),
+              ("reader", None, "new"), ("reader_twice", None, "new"), ("writer", None, "self")]
+    follow = [[add_n(1)], [rem(0)], [add_n(1), rem(0), asg()], [rem("all")], [add_n(2), asg(0), rem(1), rt()]]
+    j = 0
+    for how, kind, cont in forks:
+        for fi, fl in enumerate(follow):
+            j += 1
+
+            def fork(shadow, cur, how=how, kind=kind, cont=cont):
+                op = rand_fork(rng, cur, how=how, cont=cont, kind=kind)
+                if how == "select" and kind == "list":
+                    op["index"] = rand_index(rng, cur, kind="list")       # in range (the refused ones come from the random stream)
+                return op
+
+            plan = [add_n(2), asg(0), asg(1), fork] + list(fl)
+            hs.append(gen_history(rng, reserved, fmt=j % 11, steps=len(plan), npts=[3, 5, 2, 4][j % 4], plan=plan, init=j % 2,
+                                  build=BUILDS[j % len(BUILDS)], sibling=False))
+    # the objects the ordinary steps leave behind: the source of a round trip / conversion / re-read, the donor of a record
+    for j, first in enumerate(["roundtrip", "roundtrip-writer", "convert", "reread", "points-other", "points-reread", "mmap", "path"]):
+        for fi, fl in enumerate(follow):
+            def step1(shadow, cur, first=first):
+                if first == "convert":
+                    return lambda sh, c, curfmt, curver, reg: {"op": "convert", "fmt": curfmt, "version": None}
+                if first == "reread":
+                    return {"op": "reread", "keep": 1, "via": "write"}
+                if first.startswith("points"):
+                    return lambda sh, c, curfmt, curver, reg: rand_set_points(rng, curfmt, sh, c, reserved, source=first.split("-")[1])
+                return {"op": "roundtrip", "via": {"roundtrip": "write", "roundtrip-writer": "writer"}.get(first, first)}
+            plan = [add_n(2), asg(0), step1] + list(fl)
+            hs.append(gen_history(rng, reserved, fmt=(j + fi) % 11, steps=len(plan), npts=[3, 1, 2][(j + fi) % 3], plan=plan, init=0,
+                                  build=BUILDS[(j + fi) % len(BUILDS)], sibling=False))
     return hs
 
 
@@ -1314,7 +2025,7 @@ def systematic3(ctx, reserved):
         if not shadow:
             return None
         d = rng.choice(shadow)
-        return {"op": "assign", "name": d["name"], "size": type_size(tuple(d["type"])), "raw": hx(rand_values(rng, tuple(d["type"]), d["scale"] is not None, cur))}
+        return assign_op(rng, d, cur)
 
     def safe_std(shadow, cur):
         return lambda sh, c, curfmt, curver, reg: {"op": "assign_std", "size": std_dtype(curfmt).itemsize, "safe": True,
@@ -1394,7 +2105,8 @@ def describe(h):
     return [h.get("build", "header_record") + f"[{len(init_dims_of(h))} dims" + (", sibling " + h["sibling"]["when"] if h.get("sibling") else "") + "]"] + [
         o["op"] + (":" + o["bad"] if o.get("bad") else "") + (":" + o["source"] if o.get("source") else "")
         + (":other-format-" + o["mismatch"] if o.get("mismatch") else "") + (f":to-{o['fmt']}" if o["op"] == "convert" else "")
-        + (f":keep-{o['keep']}" if o["op"] == "reread" else "") + (":writer" if o.get("via") == "writer" else "") for o in h["ops"]]
+        + (f":keep-{o['keep']}" if o["op"] == "reread" else "") + (":" + o["via"] if o.get("via", "write") != "write" else "")
+        + (":" + o["how"] + (":" + o["index"]["kind"] if o["how"] == "select" else "") + ":go-on-with-" + o["cont"] if o["op"] == "fork" else "") for o in h["ops"]]
 
 
 def correspond(ctx):
@@ -1413,6 +2125,18 @@ def correspond(ctx):
         "Plus a systematic family: every type scaled and unscaled and every opaque size through add, assign, add, remove, round trip, "
         "remove, round trip; every name/description length 1..32; every source of a whole-record assignment followed by add / remove / "
         "remove all / assign+add / add, remove, assign again, remove; every kind of differing format. "
+        "Round 4: 10% of the steps create another live object from the LasData (las[...] with a slice, a step, a mask as array or list, an "
+        "index list with negative entries (8% with one entry out of range: IndexError, nothing changes), an index array of int64 / int32 / "
+        "int16 / uint32, an integer, an empty list; deepcopy(header) + points.copy(); LasData(las.header, ...); laspy.open(source).read() "
+        "once or twice; laspy.open(mode='w', header=las.header)) and go on with the new or the old one; sources of round trips, conversions, "
+        "re-reads and donors of whole-record assignments stay alive; all are observed after every later step and written / finished at the "
+        "end.  Assigned values are given in the declared element type; half of the added dimensions re-use a name that was removed before "
+        "(or that the sibling uses) with a type of equal layout and other kind (u/i/f of 1, 2, 4, 8 bytes x 1..3 elements); every written "
+        "file is parsed independently (record length, VLR, bytes of each dimension in each record vs the assigned values); round trips "
+        "through LasData.write (stream), laspy.open(mode='w') in chunks, a path, a path + laspy.mmap. Systematic: 48 ordered pairs of "
+        "kinds x {same LasData after removal; next to another dimension with round trips between; after a sibling; scaled -> unscaled}; "
+        "19 ways of getting another object x 5 follow-ups (add / remove / add+remove+assign / remove all / add 2+assign+remove+round trip); "
+        "8 ordinary steps that leave an object behind x the same follow-ups. "
         "Round 3: the LasData is built from LasHeader(version, point_format=id) + record, from LasHeader(point_format=fmt) or "
         "laspy.create(point_format=fmt) where fmt is a PointFormat that already carries 0..3 extra dimensions (points given their bytes), "
         "from laspy.create(point_format=id), or from the argument-less laspy.create() / LasHeader() (format 3); foreign VLRs appended or "
@@ -1444,7 +2168,8 @@ def correspond(ctx):
         canon = (h["fmt"], h["npts"], h.get("build"), (h.get("sibling") or {}).get("when"), h.get("vlr_install"),
                  tuple((tuple(d["type"]), d["scale"] is not None) for d in init_dims_of(h)),
                  tuple((o["op"], o.get("bad"), tuple((tuple(d["type"]), d["scale"] is not None, len(d["name"]) // 2, len(d["desc"]) // 2) for d in o.get("dims", [])),
-                        len(o.get("names", [])), o.get("source"), o.get("mismatch"), o.get("npts"), o.get("fmt"), o.get("keep"), o.get("via")) for o in h["ops"]),
+                        len(o.get("names", [])), o.get("source"), o.get("mismatch"), o.get("npts"), o.get("fmt"), o.get("keep"), o.get("via"),
+                        o.get("how"), o.get("cont"), (o.get("index") or {}).get("kind")) for o in h["ops"]),
                  tuple(s[0] for s in snaps))
         ctx.case(canon, nontrivial=any(o["op"] == "add" for o in h["ops"]) or bool(init_dims_of(h)),
                  sample={"format": h["fmt"], "points": h["npts"], "ops": describe(h), "outcomes": [s[0] for s in snaps[1:]]})
@@ -1454,8 +2179,9 @@ def correspond(ctx):
         ctx.count("vlrs installed by " + h.get("vlr_install", "append"))
         for o, sn in zip(h["ops"], snaps[1:]):
             ctx.count("op:" + o["op"] + (":bad-" + o["bad"] if o.get("bad") else "") + (":" + o["source"] if o.get("source") else "")
-                      + (":other-format" if o.get("mismatch") else "") + (":writer" if o.get("via") == "writer" else "")
-                      + (":no-vlr" if o["op"] == "reread" and o["keep"] is None else ""))
+                      + (":other-format" if o.get("mismatch") else "") + (":" + o["via"] if o.get("via", "write") != "write" else "")
+                      + (":no-vlr" if o["op"] == "reread" and o["keep"] is None else "")
+                      + (":" + o["how"] + (":" + o["index"]["kind"] if o["how"] == "select" else "") + ":go on with the " + o["cont"] + " one" if o["op"] == "fork" else ""))
             if o.get("mismatch"):
                 ctx.count("other format: " + o["mismatch"])
             if o["op"] == "convert":
